@@ -139,7 +139,7 @@ func (sc *srvScen) damagedMsg() (*bval, string) {
 			}
 			m.set("r", rd)
 		case 6:
-			m.set("e", []*bval{bL(), bL(bI(201)), bL(bS("x"), bI(1)), bS("str"), bI(5), bD(), bL(bI(1), bS("m"), bI(3))}[r.Intn(7)])
+			m.set("e", []*bval{bL(), bL(bI(201)), bL(bS("x"), bI(1)), bS("str"), bI(5), bD(), bL(bI(1), bS("m"), bI(3)), bL(bI(201), bI(0)), bL(bI(203), bL()), bL(bI(204), bD()), bL(bI(1<<40), bS("big")), bL(bL(), bS("m"))}[r.Intn(12)])
 		case 7: // oversized field
 			big := make([]byte, []int{1000, 5000, 30000, 60000}[r.Intn(4)])
 			k := argKeys[r.Intn(len(argKeys))]
@@ -328,7 +328,7 @@ func (sc *srvScen) hostileReplyTo(lr *Run, d dgram, key ed25519.PublicKey, salt 
 		m.set("r", lr.randBval(2))
 	case 3:
 		m.set("y", bS("e"))
-		m.set("e", lr.randBval(2))
+		m.set("e", []*bval{lr.randBval(2), bL(bI(201), bI(0)), bL(bI(203), bL()), bL(bI(204), bD("a", bI(1))), bL(bI(201))}[r.Intn(5)])
 	}
 	raw := m.enc()
 	if r.Intn(8) == 0 {
